@@ -51,16 +51,19 @@ def check_decode_rejects(r, s, n=3):
         kind, p, c, t = e
         if kind in ('I', 'D') and c == 'A':
             continue
-        st, got, _ = brun(dsw.decode, t, 2 * len(t) + 2, acc, 0, vt_check=chk, lim=100000)
+        for fast in (False, True):
+            st, got, _ = brun(dsw.decode, t, 2 * len(t) + 2, acc, 0, is_faster=fast, vt_check=chk, lim=100000)
+            r.trans += 1
+            r.evals += 1
+            if not (st == 'exc' and type(got) is ValueError):
+                r.v('C07|decode-accepts-edited-strand-with-original-check|%s|%s' % (kind, 'fast' if fast else 'normal'), 'decode',
+                    {'s': s, 'n': n, 'edit': [kind, p, c]}, 'ValueError', repr(got)[:100])
+    for fast in (False, True):
+        st, got, _ = brun(dsw.decode, s, 2 * len(s) + 2, acc, 0, is_faster=fast, vt_check=chk, lim=100000)
         r.trans += 1
-        r.evals += 1
-        if not (st == 'exc' and type(got) is ValueError):
-            r.v('C07|decode-accepts-edited-strand-with-original-check|%s' % kind, 'decode', {'s': s, 'n': n, 'edit': [kind, p, c]},
-                'ValueError', repr(got)[:100])
-    st, got, _ = brun(dsw.decode, s, 2 * len(s) + 2, acc, 0, vt_check=chk, lim=100000)
-    r.trans += 1
-    if st != 'ok':
-        r.v('C07|decode-rejects-clean-strand-with-own-check', 'decode', {'s': s, 'n': n, 'edit': None}, 'accepted', repr(got)[:100])
+        if st != 'ok':
+            r.v('C07|decode-rejects-clean-strand-with-own-check|%s' % ('fast' if fast else 'normal'), 'decode', {'s': s, 'n': n, 'edit': None},
+                'accepted', repr(got)[:100])
 
 
 def automaton(n):
